@@ -41,6 +41,7 @@ type Stats struct {
 	DigestMismatch int64                  `json:"selfcheck_digest_mismatches"`
 	KnownSeen      map[string]int64       `json:"known_findings_seen,omitempty"`
 	Samples        []json.RawMessage      `json:"samples,omitempty"`
+	PerRun         []string               `json:"per_run,omitempty"`
 	Digest         string                 `json:"digest,omitempty"` // rolling digest of all per-run digests (determinism self-test)
 }
 
@@ -214,4 +215,5 @@ type Params struct {
 	DigestOnly  bool
 	Known       *KnownFindings
 	SelfExe     string
+	PerRun      bool // keep one digest line per run (determinism self-test)
 }
